@@ -47,7 +47,7 @@ def check(ctx, replay=None):
     d = cmdfam.build_cmds(ctx)
     r = ctx.tlc("ProfCache", MC_CFG % NCHUNKS, workers=4, timeout=600)
     if r["violated"]:
-        ctx.note("TLC: %s violated (model level)" % r["violated"])
+        raise vlib.Machinery("TLC: %s violated: the specification of the unchanged design does not satisfy its own invariant" % r["violated"])
     if th:
         ctx.tlc("ProfCache", MC_CFG % 7, name="ProfCache7", workers=8, timeout=1200)
     fakedir = os.path.join(d, "fakego")
